@@ -160,7 +160,9 @@ static int apply_event(int ev, int thorough) {
 		bidib_flush(); hx_quiesce(); drain_queues();
 		rf_expire(&S.rf, vs_now_us());
 		absorb_wire();
-		if (!on) for (int m2 = 0; m2 < 2; m2++) check_stranded(m2, "unstall");
+		/* what the end of a stall can release: the node itself and (A only) the node beneath it.  A is NOT judged when B reports: the
+		 * notice comes from B, the library applies A's 2 s expiry only when A is touched (a send to A, an uplink from A) — same rule as for a bare tick */
+		if (!on) { check_stranded(node, "unstall"); if (node == 0) check_stranded(1, "unstall"); }
 	}
 	check_counts();
 	return 1;
